@@ -363,3 +363,39 @@ B('C17', 'copy registers before renaming', (SC, "            statechart_copy.ren
 B('C17', 'copy misses incoming transitions', (SC, "            transitions.update(statechart_copy.transitions_from(name))\n            transitions.update(statechart_copy.transitions_to(name))", "            transitions.update(statechart_copy.transitions_from(name))"))
 B('C17', 'only first matching transition renamed', (SC, "            if transition.target == old_name:\n                transition._target = new_name\n", "            if transition.target == old_name:\n                transition._target = new_name\n                break\n"))
 T('C17', 'flipped comparison', (SC, "            if transition.target == old_name:\n                transition._target = new_name", "            if old_name == transition.target:\n                transition._target = new_name"))
+
+# ---------------------------------------------------------------- C18
+B('C18', 'F4 reverted (identity keyed snapshot)', (PY, "            self._memory[self._memory_key(obj)] = FrozenContext(self._context)", "            self._memory[id(obj)] = FrozenContext(self._context)"))
+B('C18', '__setstate__ order swapped', ('sismic/model/events.py', "        self.name, self.data = state", "        self.data, self.name = state"))
+B('C18', '__getstate__ mutating self.__dict__', (PY, "        attributes = self.__dict__.copy()", "        attributes = self.__dict__"))
+B('C18', 'a lambda stored on the interpreter', (D, "        # Bound listeners\n        self._listeners = []  # type: List[Callable[[MetaEvent], Any]]", "        # Bound listeners\n        self._listeners = []  # type: List[Callable[[MetaEvent], Any]]\n        self._depth = lambda s: self._statechart.depth_for(s)"))
+B('C18', 'compiled code read with [code]', (PY, "        compiled_code = self._evaluable_code.get(code, None)\n        if compiled_code is None:\n            compiled_code = self._evaluable_code.setdefault(code, compile(code, '<string>', 'eval'))", "        if code not in self._evaluable_code:\n            self._evaluable_code[code] = compile(code, '<string>', 'eval')\n        compiled_code = self._evaluable_code[code]"))
+B('C18', 'getstate drops the snapshots too', (PY, "        attributes['_evaluable_code'] = dict()  # Code fragment cannot be pickled", "        attributes['_evaluable_code'] = dict()  # Code fragment cannot be pickled\n        attributes['_memory'] = dict()"))
+B('C18', 'getstate clears the live cache', (PY, "        attributes = self.__dict__.copy()", "        attributes = self.__dict__.copy()\n        self._evaluable_code = dict()"))
+B('C18', 'a lock stored on the interpreter', (D, "        # Bound listeners\n        self._listeners = []  # type: List[Callable[[MetaEvent], Any]]", "        # Bound listeners\n        self._listeners = []  # type: List[Callable[[MetaEvent], Any]]\n        self._lock = threading.Lock()"), (D, "import bisect\nimport warnings", "import bisect\nimport threading\nimport warnings"))
+B('C18', 'entry times keyed by identity', (D, "            self._entry_time[state.name] = self.time", "            self._entry_time[id(state)] = self.time"))
+B('C18', 'event data not pickled', ('sismic/model/events.py', "        return self.name, self.data", "        return self.name, {}"))
+T('C18', 'dict() for copy', (PY, "        attributes = self.__dict__.copy()", "        attributes = dict(self.__dict__)"))
+
+# ---------------------------------------------------------------- C19
+B('C19', 'assert True', (BS, "    test = testing.state_is_entered(context.monitored_trace, name)\n    assert test, 'State {} is not entered'.format(name)", "    test = testing.state_is_entered(context.monitored_trace, name)\n    assert True, 'State {} is not entered'.format(name)"))
+B('C19', 'context.trace', (BS, "    test = testing.state_is_exited(context.monitored_trace, name)\n    assert test, 'State {} is not exited'.format(name)", "    test = testing.state_is_exited(context.trace, name)\n    assert test, 'State {} is not exited'.format(name)"))
+B('C19', 'a dropped not', (BS, "    test = not testing.state_is_entered(context.monitored_trace, name)", "    test = testing.state_is_entered(context.monitored_trace, name)"))
+B('C19', 'state_is_exited reads entered_states', (TE, "        if name in step.exited_states:", "        if name in step.entered_states:"))
+B('C19', 'monitored trace never reset', (BE, "        if not context._monitoring:\n            context._monitoring = True\n            context.monitored_trace = []", "        if context.monitored_trace is None:\n            context._monitoring = True\n            context.monitored_trace = []"))
+B('C19', 'when result dropped', (BE, "        macrosteps = context.interpreter.execute()\n", "        context.interpreter.execute()\n        macrosteps = []\n"))
+B('C19', 'F12 reverted', (BS, "@then('expression \"{expression}\" holds')\n", ""))
+B('C19', 'variable_equals with !=', (BS, "    assert current_value == expected_value, 'Variable {} equals {}, not {}'", "    assert current_value != expected_value, 'Variable {} equals {}, not {}'"))
+B('C19', 'active judged on the trace', (BS, "    assert name in context.interpreter.configuration, 'State {} is not active'.format(name)", "    assert testing.state_is_entered(context.monitored_trace, name), 'State {} is not active'.format(name)"))
+B('C19', 'final ignores the interpreter', (BS, "    assert context.interpreter.final, 'Statechart is not in a final configuration: {}'", "    assert context.interpreter is not None, 'Statechart is not in a final configuration: {}'"))
+B('C19', 'event fired ignores parameters', (BS, "    test = testing.event_is_fired(context.monitored_trace, name, parameters)", "    test = testing.event_is_fired(context.monitored_trace, name)"))
+B('C19', 'wait ignores its argument', (BS, "    context.interpreter.clock.time += seconds", "    context.interpreter.clock.time += 1"))
+B('C19', 'send_event drops table parameters', (BS, "    if context.table:\n        for row in context.table:\n            parameters[row['parameter'].strip()] = eval(row['value'].strip(), {}, {})\n\n    if parameter and value:", "    if parameter and value:"))
+B('C19', 'given steps recorded too', (BE, "    if step.step_type == 'given':\n        context.interpreter.execute()", "    if step.step_type == 'given':\n        context.monitored_trace = context.interpreter.execute()"))
+B('C19', 'then does not stop monitoring', (BE, "        # Stop monitoring\n        context._monitoring = False\n", ""))
+B('C19', 'event_is_fired returns on first step', (TE, "                if matching_parameters:\n                    return True\n    return False\n\n\ndef event_is_consumed", "                if matching_parameters:\n                    return True\n        return False\n    return False\n\n\ndef event_is_consumed"))
+B('C19', 'no_event_is_fired only looks at the first step', (BS, "    for macrostep in context.monitored_trace:\n        if len(macrostep.sent_events) > 0:", "    for macrostep in context.monitored_trace[:1]:\n        if len(macrostep.sent_events) > 0:"))
+B('C19', 'quoted spelling shadowed', (BS, "@then('expression {expression} holds')\n@then('expression \"{expression}\" holds')\n", "@then('expression \"{expression}\" holds')\n@then('expression {expression} holds')\n"))
+B('C19', 'reproduce ignores the keyword', (BS, "                    context.execute_steps('{} {}'.format(keyword, step.name))", "                    context.execute_steps('{} {}'.format('Given', step.name))"))
+B('C19', 'not exited checks entered', (BS, "    test = not testing.state_is_exited(context.monitored_trace, name)", "    test = not testing.state_is_entered(context.monitored_trace, name)"))
+T('C19', 'inline assertion', (BS, "    test = testing.state_is_entered(context.monitored_trace, name)\n    assert test, 'State {} is not entered'.format(name)", "    assert testing.state_is_entered(context.monitored_trace, name), 'State {} is not entered'.format(name)"))
